@@ -171,6 +171,7 @@ type FilterSpec struct {
 	With    []int     `json:"with,omitempty"` // additional required components
 	Without []int     `json:"wo,omitempty"`
 	Excl    bool      `json:"excl,omitempty"`
+	XFirst  bool      `json:"xfirst,omitempty"` // builder order: Exclusive() is called before With(...)
 	Rels    []RelSpec `json:"rels,omitempty"`
 }
 
